@@ -29,6 +29,8 @@ def rederive(build, make_observer, cfg, trace, only):
     """Replay a witness in amaranth.sim on a fresh instance and re-evaluate the oracle on the
     simulator's values. Returns (err, cycle) of the first oracle failure, or (None, None)."""
     h2 = build(cfg)
+    if callable(only):
+        only = only(h2)
     names = [n for n, _ in h2.probes if only is None or n in only]
     got = simulate(h2, trace, probe_names=set(names))
 
@@ -57,6 +59,9 @@ def explore_hw(build, make_observer, cfg, tier, seed, *, only=None, max_states=1
     h, early = build_or_classify(build, cfg)
     if h is None:
         return early
+    only_arg = only
+    if callable(only):
+        only = only(h)
     try:
         comp = compile_harness(h, only=only)
     except ToolError as e:
@@ -80,7 +85,7 @@ def explore_hw(build, make_observer, cfg, tier, seed, *, only=None, max_states=1
                cells=comp.n_cells, t_bfs=round(t_bfs, 2))
     if r.violation is not None:
         trace = [list(l) for l in r.violation["trace"]]
-        err, cyc = rederive(build, make_observer, cfg, trace, only)
+        err, cyc = rederive(build, make_observer, cfg, trace, only_arg)
         if err is None:
             raise ToolFailure(f"violation {r.violation['err']!r} found on the compiled netlist is "
                               f"not reproduced by amaranth.sim (cfg={cfg!r})")
